@@ -66,6 +66,6 @@ Conforms == obs.conf
 \* C16_AtMostOnce on the recorded run (a Reset starts a new server)
 T_AtMostOnce ==
     [][(pos <= Len(TLog) /\ TLog[pos].a # "Reset") =>
-          (st.sealed \subseteq st'.sealed /\ \A t \in st.sealed : st'.how[t] = st.how[t])]_<<st, pend, pos, obs>>
+          ((st.sealed \ {st.bad}) \subseteq st'.sealed /\ \A t \in st.sealed \ {st.bad} : st'.how[t] = st.how[t])]_<<st, pend, pos, obs>>
 Accepted == TLCGet("stats").diameter = Len(TLog) + 1
 =============================================================================
